@@ -60,13 +60,14 @@ succ_ctx = dict(
     ],
     post=ALIVE,
 )
-NAME = dict(post=[(r'^(?!NULL$)(\w+)$', r'lv_op_\1')])     # a static member function named by an initialiser -> the C function lv_op_<name>
+NAME = dict(post=[(r'^(=\s*)?(?!NULL$)(\w+)$', r'\1lv_op_\2')])     # a static member function named by an initialiser -> the C function lv_op_<name>
 
 SPEC = dict(
     properties=['C02', 'C05', 'C01'],
     ctx={},
     extracts={
-        'cleanup_init': dict(file=H, kind='expr', sig=r'void \(\*cleanup_\)\(type\*\) noexcept = (\w+);', within=OP, ctx=NAME),
+        # optional group: a member WITHOUT initialiser is left nondeterministic by the harness (DESIGN 12.2)
+        'cleanup_init': dict(file=H, kind='expr', sig=r'void \(\*cleanup_\)\(type\*\) noexcept\s*(=?[^;]*);', within=OP, ctx=NAME),
         'expected_cleanup': dict(file=H, kind='expr', sig=r'(?s)expectedCleanup\)\(\s*Operation\*\) noexcept =\s*Operation::template (\w+)<Values\.\.\.>;', within=SUCC, ctx=NAME),
         'ctor': dict(file=H, sig=r'explicit type\(\s*Predecessor&& pred, SuccessorFactory2&& func, Receiver2&& receiver\)', within=OP, ctx=op_ctx),
         'dtor': dict(file=H, sig=r'~type\(\)', within=OP, ctx=op_ctx),
@@ -83,7 +84,7 @@ SPEC = dict(
     },
     closed_world=[
         dict(file=H, members=['cleanup_', 'predOp_', 'succOp_', 'values_'],
-             allow=[r'void \(\*cleanup_\)\(type\*\) noexcept = \w+;',      # the default member initialiser (extracted: cleanup_init)
+             allow=[r'void \(\*cleanup_\)\(type\*\) noexcept\s*=?[^;]*;',      # the default member initialiser (extracted: cleanup_init)
                     r'(?s)UNIFEX_NO_UNIQUE_ADDRESS typename sender_traits<predecessor_type>::\s*template value_types<manual_lifetime_union, decayed_tuple>\s*values_;',
                     r'(?s)manual_lifetime<\s*connect_result_t<Predecessor, predecessor_receiver<operation>>>\s*predOp_;',
                     r'(?s)typename sender_traits<predecessor_type>::\s*template value_types<manual_lifetime_union, successor_operation>\s*succOp_;']),
